@@ -570,20 +570,25 @@ impl World for C20 {
             digests.push(r.trace_hash);
             log.push(format!("schedule {si}: steps={} switches={} trace={:x}", r.steps, r.switches, r.trace_hash));
             let what = format!("schedule #{si} {p}");
+            let art = json!({"schedule_index": si, "seed": p["seed"], "choices": r.chosen});
             if let Some(h) = &r.hung {
                 o.violate("hang", "hang", format!("{what}: {h}"));
+                o.artifact = Some(art);
                 break;
             }
             if r.deadlock {
                 o.violate("deadlock", "deadlock", format!("{what}: nobody runnable while threads are blocked"));
+                o.artifact = Some(art);
                 break;
             }
             if let Some(pn) = r.panics.first() {
                 o.violate("panic", "panic", format!("{what}: {pn}"));
+                o.artifact = Some(art);
                 break;
             }
             if verif_hooks::chunk_errors() != errs {
                 o.violate("chunk-lifecycle", "chunk", format!("{what}: chunk life-cycle assertion fired"));
+                o.artifact = Some(art);
                 break;
             }
             for (t, (a, b)) in reference.transcripts.iter().zip(r.transcripts.iter()).enumerate() {
@@ -595,6 +600,9 @@ impl World for C20 {
             if r.forced_divergence {
                 o.bump("forced_schedule_divergences", 1);
             }
+            if o.violation.is_some() && o.artifact.is_none() {
+                o.artifact = Some(json!({"schedule_index": si, "seed": p["seed"], "choices": r.chosen}));
+            }
         }
         // Distinct interleavings reached in this case.
         digests.sort();
@@ -605,10 +613,52 @@ impl World for C20 {
         o
     }
 
+    fn apply_artifact(&self, case: &Json, artifact: &Json) -> Json {
+        // Replace the schedule policies by the literal choice sequence that was taken.
+        let mut c = case.clone();
+        c["schedules"] = json!([{"kind": "forced", "seed": artifact["seed"], "choices": artifact["choices"]}]);
+        c
+    }
+
     fn shrink(&self, case: &Json) -> Vec<Json> {
         let mut out = Vec::new();
         let empty = Vec::new();
         let sch = case["schedules"].as_array().unwrap_or(&empty);
+        // Minimise a literal schedule: cut it (the rest runs sequentially), then remove context
+        // switches window by window (the thread running at the window start keeps running).
+        if sch.len() == 1 && sch[0]["kind"] == "forced" {
+            let ch: Vec<u64> = sch[0]["choices"].as_array().map(|a| a.iter().filter_map(|x| x.as_u64()).collect()).unwrap_or_default();
+            let n = ch.len();
+            let mk = |c2: Vec<u64>| {
+                let mut c = case.clone();
+                c["schedules"][0]["choices"] = json!(c2);
+                c
+            };
+            for cut in [n / 4, n / 2, n * 3 / 4, n.saturating_sub(n / 8), n.saturating_sub(1)] {
+                if cut < n {
+                    out.push(mk(ch[..cut].to_vec()));
+                }
+            }
+            let mut w = n / 2;
+            while w >= 1 && out.len() < 400 {
+                let mut start = 0;
+                while start + 1 < n {
+                    let end = (start + w).min(n);
+                    if ch[start..end].iter().any(|x| *x != ch[start]) {
+                        let mut c2 = ch.clone();
+                        for x in c2[start..end].iter_mut() {
+                            *x = ch[start];
+                        }
+                        out.push(mk(c2));
+                    }
+                    start = end;
+                }
+                if w == 1 {
+                    break;
+                }
+                w /= 2;
+            }
+        }
         if sch.len() > 1 {
             for s in sch {
                 let mut c = case.clone();
